@@ -13,7 +13,8 @@ def impsOf (j : Json) (k : String) : Except String (List Imp) := do
 def stmtOf (j : Json) : Except String Stmt := do
   let kind ← jstr j "kind"
   let k := match kind with | "comment" => SKind.comment | "docstr" => SKind.docstr | _ => SKind.other
-  pure ⟨toStr (← jstr j "text"), k, ← jbool j "is_import", ← impsOf j "imports", ← jnat j "line"⟩
+  pure ⟨toStr (← jstr j "text"), k, ← jbool j "is_import", ← impsOf j "imports", ← jnat j "line",
+        (jnat j "col").toOption.getD 1⟩
 
 def impLe (a b : Imp) : Bool :=
   strLt a.fullname b.fullname || (a.fullname = b.fullname && strLe a.importAs b.importAs)
